@@ -92,6 +92,11 @@ def make_case(rng, i, tier):
     a = rng.choice(V)
     if "nullable_prefix" in shape and rng.random() < 0.7:
         a = t
+    if "ab" not in V and rng.random() < 0.15:
+        # integer token ids: the terminal 0 is falsy
+        desc, (ps, ys, aa), _ = gen.intify_terms(desc, ps, ys, [[a]])
+        a = aa[0][0]
+        shape += "+int_tokens"
     return {"id": i, "R": R, "shape": shape, "finite": finite, "cfg": desc, "ps": ps, "ys": ys, "a": a}
 
 
